@@ -20,49 +20,76 @@ MANIFEST = {
     "text": "Lean 4 theorems about a degree type system for the transform pipeline: every primitive (safe divide, "
             "percentile/max of the modulus, relative zero-padding threshold, RSS, masking, SENSE combination, ...) is "
             "homogeneous of the degree its rule claims over any ordered field and any c > 0; for every valid combination "
-            "of the 24 builder flags the composed stage list type-checks with all normalised outputs of degree 0 and the "
-            "scaling factor of degree 1, hence run(c*x) = run(x) on normalised keys and scaling_factor scales by c; "
-            "masked_kspace = mask x (kspace / s), target = ComputeImage(kspace / s) (SSL variant too), shape tags for every "
-            "flag combination (tuple and string crops, pad/rescale), mask and random-crop seed = file name only, "
-            "ModuleWrapper batching equivalence. Both the stage list of the two builders and the program of every "
-            "transform class (keys read/written, presence guards, primitive applied) are translated from the current source "
-            "and proved equal to the model (rfl); exact differential correspondence of stages and whole pipelines "
-            "(identity FFT operators, dyadic data) against the Lean model over rationals.",
+            "of the 24 builder flags the composed stage list of build_mri_transforms type-checks with all normalised outputs "
+            "of degree 0 and the scaling factor of degree 1, hence run(c*x) = run(x) on normalised keys and scaling_factor "
+            "scales by c; masked_kspace = mask x (kspace / s), target = ComputeImage(kspace / s) (SSL variant too), shape tags "
+            "for every flag combination, mask and random-crop seed = file name only, ModuleWrapper batching equivalence. "
+            "Phase 3: the same for the second builder pair build_pre_mri_transforms ++ build_post_mri_transforms (target "
+            "computed before Normalize and normalised by its default key list: prepost_degrees_ok / _equivariant / "
+            "_consistent); for samples that already contain sampling_mask + acs_mask (no mask function) or a sensitivity_map "
+            "(given_masks_equivariant, given_map_equivariant, from any initial sample: pipeline_equivariant_from); the "
+            "IndexError branch of the percentile scaling is modelled (runE refines run; runE_equivariant: the error is raised "
+            "for c*x exactly when for x and is the only error of a well-typed pipeline); the homogeneity of the externals is "
+            "a theorem for the executed model (driver_externals_hom: identity operators and C10's centerCrop lifted along both "
+            "spatial axes, via naturality of Tensor.alongAxis) and for every external that is a linear map with "
+            "size-dependent coefficients (linear_externals_hom). Translated from the current source and bridged (rfl / "
+            "decide): the stage lists of all four builders, the program of every transform class, NormalizeModule's default "
+            "key list, the parameter lists of the four builders with the class of every parameter (a new parameter breaks a "
+            "bridge), the configuration denoted by the default arguments, the ModuleWrapper alias table and toggle_dims, the "
+            "form (alias vs raw module) in which every builder composes every class, and the table of writes to instance / "
+            "class / module state outside __init__ of all 37 classes (must be empty). Exact differential correspondence of "
+            "stages and whole pipelines (both builder families, samples with given masks / maps, identically zero samples "
+            "incl. the IndexError) against the Lean model over rationals.",
     "note": "Trusted: Lean kernel (+propext, Classical.choice, Quot.sound), the AST translator (symbolic execution of the "
             "forward/__call__ bodies with register coalescing; the three random augmentations and the percentile loop are "
-            "matched as wholes), the semantics of the primitives (tied by correspondence), externals assumed positively homogeneous (FFT-based crop / "
-            "pad / rescale, backward operator, coil compression, Gaussian weighting) and sqrt(q^2 x) = q sqrt(x). Partial: "
-            "ESPIRiT maps (opaque) and random augmentations (SystemRandom, probability 0) are outside the quantifier; "
-            "float rounding/overflow and NaN/Inf freedom are checked on the implementation only (bit-exact for 2^k, 1e-4 "
-            "for arbitrary scales); shape tags are rank-agnostic (real 2-D/3-D shapes are checked on the implementation); an "
-            "all-zero masked k-space makes the percentile scaling raise (precondition, repro in the evidence notes). The model is "
-            "pure: applyMask with an all-true mask is a fresh value, so storage aliasing between sample entries and in-place "
-            "updates are invisible to the theorems; they are checked on the real modules only (stage-by-stage storage / "
-            "in-place checks, fully sampled and all-zero masks, masked_kspace x scaling_factor == apply_mask(raw k-space)).",
-    "technique": "Lean 4 proof (type-soundness induction, decide +kernel on the builder) + AST translation bridge (rfl) + "
-                 "differential correspondence + property oracle on the real pipeline",
+            "matched as wholes), the semantics of the primitives (tied by correspondence), sqrt(q^2 x) = q sqrt(x). Externals: "
+            "homogeneity is proved for the driver's externals and for linear externals; for the real FFT / interpolation / SVD "
+            "coil compression it remains the hypothesis ExtHom (torch.fft is linear: C01; checked bit-exactly under 2^k on the "
+            "implementation). Partial: ESPIRiT maps (opaque) and random augmentations (SystemRandom, probability 0) are outside "
+            "the quantifier; float rounding/overflow and NaN/Inf freedom are checked on the implementation only (bit-exact for "
+            "2^k, 1e-4 for arbitrary scales); shape tags are rank-agnostic (real 2-D/3-D shapes are checked on the "
+            "implementation). The model is pure: storage aliasing, in-place updates, state kept on transform objects and "
+            "mutation of the raw input are invisible to the theorems; they are covered by the translated no-instance-state "
+            "table and checked on the real modules (stage-by-stage storage / in-place checks, call histories on one transform "
+            "object vs fresh ones on data of large dynamic range, raw array untouched, complex128 / Fortran / non-contiguous "
+            "inputs, stale entries in the raw sample, batch of two through the post-transform). Observations outside the "
+            "quantifier are recorded with repros in the evidence notes (percentile on an all-zero or exactly cancelling coil "
+            "raises IndexError; with PadKspace and un-centred operators the coil test of the percentile is decided by rounding "
+            "noise; sensitivity maps in zero-padded rows are normalised noise; rank-4 masks for 3-D samples with a tuple crop; "
+            "scaling_key=body_coil_image; tuple crop + pad).",
+    "technique": "Lean 4 proof (type-soundness induction, decide +kernel on the builders, naturality of alongAxis) + AST "
+                 "translation bridge (rfl / decide on generated tables) + differential correspondence + property oracle on the "
+                 "real pipeline (configurations, options, histories, input forms)",
 }
 TRUSTED = [
     "Lean 4.33 kernel; axioms ⊆ {propext, Classical.choice, Quot.sound}",
-    "harness/translate/recipes/c08.py (Python AST -> stage table, threshold expression, seed expressions)",
+    "harness/translate/recipes/c08.py (Python AST -> stage tables of the four builders, threshold expression, seed expressions, "
+    "signature / default / wrapper / call-form / instance-state tables)",
     "harness/translate/recipes/c08.py StageExec (class bodies -> List Instr): vocabulary of call patterns, layout-only "
     "calls treated as identity, register coalescing; `evalOp` (semantics of the primitives) validated by correspondence",
-    "externals: FFT-based operators, mask functions, splitters (homogeneity of the linear ones is an assumption)",
+    "externals of the real pipeline: FFT operators, interpolation, SVD coil compression (homogeneity assumed: ExtHom; proved for "
+    "the driver's externals and for linear externals), mask functions, splitters",
     "torch elementwise float32 arithmetic is exact on the dyadic probe set",
 ]
 ASSUMPTIONS = [
     "random augmentations have probability 0 (they draw from SystemRandom); ESPIRiT maps excluded (opaque, slow)",
     "exact correspondence: identity forward/backward operators, one non-zero coil per pixel, values ±2^k on an axis, "
     "so that every square root, mean and division is exact in float32",
-    "the masked k-space is not identically zero when scale_percentile is set (torch.kthvalue raises on an empty tensor)",
+    "oracle samples have no coil whose entries sum to exactly zero (then scale_percentile raises IndexError: modelled by runE, "
+    "compared exactly in the correspondence, excluded from the oracle's random data)",
     "a tuple crop is not combined with pad/rescale (CreateSamplingMask would build the mask for the crop shape)",
+    "PadKspace / RescaleKspace / CompressCoil are outside the property's quantifier: bit-exact invariance under 2^k is still "
+    "checked; arbitrary scales exclude the outputs that are decided by rounding noise there (see the evidence notes)",
+    "use_seed=False is exercised with a wrapper that substitutes a fixed seed for None (the mask function re-seeds from the OS)",
 ]
 RULE = ("cases: static verdict vs. observed equivariance on random flag combinations; every stage module and whole "
-        "pipelines (supervised/SSL, 2-D/3-D, coils 1..4, sizes 4..12 odd/even, crop on/off) compared exactly with the Lean "
-        "model; oracle: bit-exact invariance under 2^k, 1e-4 under arbitrary scales, masked = mask x normalised k-space, "
-        "target = ComputeImage(normalised k-space), crop shapes, finiteness with zero coils/borders, one mask per file "
-        "name. non-trivial = at least 2 pixels per axis and a non-constant sample; distinct = distinct (config, shape, "
-        "data seed)")
+        "pipelines (build_mri_transforms supervised/SSL, build_pre + collate + build_post, samples with given masks / maps, "
+        "all-zero samples; 2-D/3-D, coils 1..4, sizes 4..12 odd/even, crop on/off) compared exactly with the Lean model; "
+        "oracle: bit-exact invariance under 2^k, 1e-4 under arbitrary scales, masked = mask x normalised k-space, target = "
+        "ComputeImage(normalised k-space), crop / pad / rescale shapes, finiteness with zero coils/borders, one mask per file "
+        "name, rarely used options (pad, rescale, compress with more coils than requested, unseeded, stale entries), call "
+        "histories on one transform object, default arguments, input forms, batch of two. non-trivial = at least 2 pixels "
+        "per axis and a non-constant sample; distinct = distinct (config, shape, data seed)")
 PENDING_FINDINGS: list[str] = []
 
 KEY_ORDER = ["kspace", "masked_kspace", "sampling_mask", "acs_mask", "padding", "sensitivity_map", "scaling_factor",
@@ -963,7 +990,7 @@ def _oracle(ctx: Ctx, deep: bool = False):
         ctx.count(("oracle-opt", kind, tuple(flag_list(f)), tuple(k.shape), seed), True, bucket="oracle/option/" + kind)
         yield from _guarded(check_config(cfg, k), {"op": "pipeline", **cfg})
     # (viii) call histories on one transform object (no state kept across calls), raw input left untouched, input forms
-    for i in range(ctx.budget(6, 120)):
+    for i in range(ctx.budget(6, 120) * (3 if deep else 1)):
         f = {**random_flags(rng, valid_only=True), "delete_kspace": rng.choice([0, 1])}
         fam = "prepost" if i % 3 == 2 else "single"
         if fam == "prepost":
@@ -973,6 +1000,12 @@ def _oracle(ctx: Ctx, deep: bool = False):
                "pad_to": 4}
         if f["crop"] == 2:
             f["crop"] = 1
+        if fam == "single" and i % 3 == 1:
+            f.update(compress_coils=1, pad_coils=0, smap_type=1)
+            cfg["shape"][0] = 3
+            cfg["compress_to"] = rng.choice([1, 2])
+        if i == 0 or deep:
+            f["padding_eps"] = 1
         ctx.count(("history", fam, tuple(flag_list(f)), cfg["seed"], tuple(cfg["shape"])), True, bucket="oracle/history/" + fam)
         yield from _guarded(check_history(cfg), {"op": "history", **cfg})
     # (ix) the builders' default arguments denote the default configuration (only operators and the mask function given)
@@ -1589,6 +1622,14 @@ def _same_outputs(a: dict, b: dict, what: str, rep: dict, key: str, exact=True, 
                 yield Violation(key + "-" + kk, f"{what}: `{kk}` differs", {**rep, "key": kk})
 
 
+def _dynamic_sample(seed, nc, h, w):
+    g = np.random.RandomState(seed)
+    k = (g.randn(nc, h, w) + 1j * g.randn(nc, h, w)).astype(np.complex64)
+    yy, xx = np.meshgrid(np.arange(h) - h // 2, np.arange(w) - w // 2, indexing="ij")
+    r = np.sqrt((yy / max(h // 2, 1)) ** 2 + (xx / max(w // 2, 1)) ** 2) / np.sqrt(2.0)
+    return (k * (10.0 ** (-6.0 * r)).astype(np.float32)).astype(np.complex64)
+
+
 def check_history(cfg):
     """One transform object applied to a sequence of samples (two files, several slices, a repeated sample, a scaled
     sample): every output equals that of a freshly built transform on the same sample — nothing is remembered across
@@ -1597,10 +1638,13 @@ def check_history(cfg):
     f = cfg["flags"]
     nc, h, w = cfg["shape"]
     rep = {"op": "history", **cfg}
-    # (a border far below the relative threshold: the zero-padding stage is not the identity)
-    ks = {("hist_a.h5", 0): _gauss_sample(cfg["seed"], nc, 0, h, w, 2, False), ("hist_a.h5", 1): _gauss_sample(cfg["seed"] + 1, nc, 0, h, w, 2, False),
-          ("hist_b.h5", 0): _gauss_sample(cfg["seed"] + 2, nc, 0, h, w, 2, False)}
-    seq = [("hist_a.h5", 0, 1.0), ("hist_b.h5", 0, 1.0), ("hist_a.h5", 1, 8.0), ("hist_a.h5", 0, 1.0), ("hist_b.h5", 0, 0.125)]
+    # k-space with a large dynamic range (magnitudes decaying by 10^-6 from the centre, like measured data): entries exist on
+    # both sides of every relative threshold, so a threshold / factor remembered from another call changes the outputs
+    ks = {("hist_a.h5", 0): _dynamic_sample(cfg["seed"], nc, h, w), ("hist_a.h5", 1): _dynamic_sample(cfg["seed"] + 1, nc, h, w),
+          ("hist_b.h5", 0): _dynamic_sample(cfg["seed"] + 2, nc, h, w)}
+    # x, then c·x of the same file name and shape right after it; a slice of very different energy; another file in between
+    seq = [("hist_a.h5", 0, 1.0), ("hist_a.h5", 0, 2.0 ** 10), ("hist_a.h5", 1, 2.0 ** -12), ("hist_b.h5", 0, 1.0), ("hist_a.h5", 0, 1.0),
+           ("hist_a.h5", 1, 8.0)]
     tr = _build_for(cfg)
     for step, (name, sl, scale) in enumerate(seq):
         k = (ks[(name, sl)] * np.float32(scale)).astype(np.complex64)
@@ -1744,7 +1788,7 @@ def replay(rep: dict) -> bool:
                                           "percentile", "family", "stale", "pad_shape", "rescale_shape", "compress_to") if kk in rep}
             return any(True for _ in check_config(cfg, k))
         if op == "history":
-            cfg = {kk: rep[kk] for kk in ("family", "flags", "seed", "shape", "crop_shape", "centered", "percentile", "pad_to") if kk in rep}
+            cfg = {kk: rep[kk] for kk in ("family", "flags", "seed", "shape", "crop_shape", "centered", "percentile", "pad_to", "compress_to") if kk in rep}
             return any(True for _ in check_history(cfg))
         if op == "defaults":
             cfg = {kk: rep[kk] for kk in ("family", "seed", "shape", "name")}
